@@ -27,7 +27,8 @@ CFG = {
                   "(governance proposals and certificates participate through their deposit / refund amounts only). No axioms.",
     "theorems": ["C05_accounting", "C05_change_balances", "C05_select_and_change", "C05_balance", "C05_failure_keeps_wf",
                  "C05_histories", "C05_history_change", "C05_order", "C05_judge_decides", "C05_recorded_oracle_ok",
-                 "C05_mint_min_int_refuted"],
+                 "C05_mint_min_int_refuted", "C05_collateral_entry", "C05_collateral_is_c19", "C05_histories2",
+                 "C05_history2_balancing"],
     "allowed_axioms": [],
     "compare": "exact",
     "nontrivial": _nontrivial,
@@ -39,9 +40,9 @@ CFG = {
             "MintBuilder (incl. the ends of the Int range), donation, current treasury value, set_fee / set_min_fee, prefer_pure_change and "
             "do_not_burn_extra_change, protocol parameters incl. zero prices and tiny max_value_size / max_tx_size, operations issued in "
             "random order, then add_change_if_needed(_with_datum) or add_inputs_from_and_change (4 strategies, scripted RNG, retry loop), "
-            "sometimes a second change attempt or an edit after balancing, then build_tx; one third of the ADA-side scenarios are steered by "
+            "or add_inputs_from_and_change_with_collateral_return (collateral set with set_collateral; percentages 0..2^64-1), also add_mint_asset_and_output(_min_required_coin), add_mint_asset, and the deprecated set_mint / set_certs / set_withdrawals (with script credentials to hit their rejections), sometimes a second change attempt or an edit after balancing, then build_tx; one third of the ADA-side scenarios are steered by "
             "a dry run to the exact / burn / just-enough boundaries. Compared exactly: result class of every operation, fee, outputs "
-            "(address, datum/script kind, coin, every asset), inputs, and the re-read transaction body (inputs, outputs, fee, certificates, "
+            "(address, datum/script kind, coin, every asset), inputs, collateral inputs / return / total, and the re-read transaction body (inputs, outputs, fee, certificates, "
             "withdrawals, mint, proposal deposits, donation). The case label carries how the first balancing operation went on the "
             "implementation (exact, burn, single, assets1, assetsN, assetsN+pure, err, panic) and the fee policy. non-trivial = distinct "
             "scenario whose balancing operation succeeded and whose transaction was built",
